@@ -185,7 +185,7 @@ pub fn run(ctx: &Ctx) {
          Oracle from the pre-state: a reference whose text resolved (own resolution on the tree) to an element in the renamed/moved sub tree must afterwards resolve - on the new tree and through get_element_by_path - to the same element object; every other reference keeps its text (don't-care: dangling references at or below the old path). Non-trivial: >= 1 reference into the sub tree and >= 1 other reference; distinct by call sequence.",
     );
     let known_open = |sig: &str| ctx.is_known_open(sig);
-    let cases = ctx.tier.pick(5_000u64, 200_000u64);
+    let cases = ctx.tier.pick(60_000u64, 600_000u64);
     let prep = vec![(op::SET_REF, 10), (op::SET_DATA, 8), (op::NAMED, 6), (op::CREATE, 6), (op::RENAME, 2), (op::MOVE, 2), (op::COPY, 3), (op::LOAD, 1), (op::GET_OR_CREATE, 2)];
     let fin = vec![(op::RENAME, 5), (op::MOVE, 4), (op::MOVE_AT, 2)];
     let strat = (0u32..2, proptest::collection::vec(op_strategy(&prep), 0..10), op_strategy(&fin));
